@@ -89,8 +89,8 @@ check("C08", "model_checking",
       "DESIGN.md §5 C08", "mc")
 
 check("C04", "model_checking",
-      "Two engines. mc: for AsyncClient and WebSocketClient over an in-memory stream on a paused single-threaded runtime, n <= 5 (thorough 7) concurrent calls x every permutation of the n replies x one extra frame (unknown id, duplicate of reply j, notify reusing in-flight id j) at every position x delivery one-by-one or in one burst; batch_json under every reply order; replies injected while the request's own write is blocked after 48+k bytes; forward_message re-using the id of an in-flight call; batches longer than the blocking client's worker cap (63..4*cores+1 requests, answered in waves in three orders) on all three clients; the blocking Client's reply permutations over loopback TCP. lm: the real blocking client.rs under loom (mock socket, loom channel, 2-3 caller threads + reader + scripted server): in-order, reversed, unknown+duplicate, early-reply and multi-call scripts at preemption bound 2 (3 in thorough); every schedule must give each call the response addressed to its own request id, distinct ids, no hang.",
-      "tokio multi-threaded scheduling below transport granularity is not explored for the two tokio clients (single-threaded runtime); loom explores SC interleavings within the preemption bound; AsyncClient has no notification API (a notify reusing an id may be consumed by that call).",
+      "Two engines. mc: for AsyncClient and WebSocketClient over an in-memory stream on a paused single-threaded runtime, n <= 5 (thorough 7) concurrent calls x every permutation of the n replies x one extra frame (unknown id, duplicate of reply j, notify reusing in-flight id j) at every position x delivery one-by-one or in one burst; batch_json under every reply order; replies injected while the request's own write is blocked after 48+k bytes; forward_message re-using the id of an in-flight call; batches longer than the blocking client's worker cap (63..4*cores+1 requests, answered in waves in three orders) on all three clients; the blocking Client's reply permutations over loopback TCP; a caller parked INSIDE its own call (gate in the body's Serialize, the call polled on its own OS thread) while another call is issued and answered / left pending / timed out, then resumed or refused locally as too large, then a third call, replies in every order (ids on the wire pairwise distinct, every call its own response). lm: the real blocking client.rs under loom (mock socket, loom channel, 2-3 caller threads + reader + scripted server): in-order, reversed, unknown+duplicate, early-reply and multi-call scripts at preemption bound 2 (3 in thorough); every schedule must give each call the response addressed to its own request id, distinct ids, no hang.",
+      "tokio multi-threaded scheduling below transport granularity is not explored for the two tokio clients (single-threaded runtime) except at the one extra scheduling point the harness owns (body serialization); loom explores SC interleavings within the preemption bound; AsyncClient has no notification API (a notify reusing an id may be consumed by that call).",
       "exhaustive enumeration of peer scripts against the running clients (mc) + loom stateless model checking of the blocking client",
       "DESIGN.md §5 C04", "mc+lm")
 check("C05", "fault_enumeration",
@@ -99,7 +99,7 @@ check("C05", "fault_enumeration",
       "exhaustive enumeration of stall offsets / interruption points against running endpoints (mc) + loom model checking of the blocking client's writer",
       "DESIGN.md §5 C05", "mc+lm")
 check("C06", "fault_enumeration",
-      "Two engines. mc: for AsyncClient and WebSocketClient with a paused clock - every fault (peer closes before/after the requests, reset, reply cut after 1/47/48/50/len-1 bytes, five kinds of malformed frame, answer-one-then-close) x 0..3 (thorough 0..16) calls in flight x with/without per-call timeouts; a response arriving 4990/50/2 ms before a 5 s timeout and after it, with and without a sibling call; staggered timeouts; cancellation before start, while awaiting the response, while queued on the writer lock, and mid-write with a sibling call queued behind it; a call still pending after a virtual hour is a hang; pending map must be empty; the subscriber must see end-of-stream. lm: blocking client under loom - close before/after read, partial response, malformed header, answer-then-close, timeout vs late reply, reply racing the timeout (virtual clock): no schedule may leave a thread blocked.",
+      "Two engines. mc: for AsyncClient and WebSocketClient with a paused clock - every fault (peer closes before/after the requests, reset, reply cut after 1/47/48/50/len-1 bytes, five kinds of malformed frame, answer-one-then-close) x 0..3 (thorough 0..16) calls in flight x with/without per-call timeouts; a response arriving 4990/50/2 ms before a 5 s timeout and after it, with and without a sibling call; staggered timeouts; cancellation before start, while awaiting the response, while queued on the writer lock, and mid-write with a sibling call queued behind it; failures that leave the client's writing side open (five malformed frames, half-close, cut reply + half-close) injected while a 20 KB request is stalled mid-write with 0..2 (0..4) earlier calls in flight, the peer then letting the stalled write through or never reading again; a call still pending after a virtual hour is a hang; pending map must be empty; the subscriber must see end-of-stream. lm: blocking client under loom - close before/after read, partial response, malformed header, answer-then-close, timeout vs late reply, reply racing the timeout (virtual clock), a malformed frame from a peer that never reads again while one / one of two callers is stalled mid-write: no schedule may leave a thread blocked.",
       "Promptness is decided as 'returns without waiting for something that never comes', not as wall-clock latency.",
       "exhaustive fault-script enumeration against the running clients (mc) + loom model checking of the blocking client",
       "DESIGN.md §5 C06", "mc+lm")
